@@ -164,7 +164,9 @@ def task_affine(shape):
             k = chk.call(KV, list(U))
             chk.call(lambda: (k.knots, k.limits))          # inspected first: answers after the maps must not be stale
             chk.call(k.scale, s)
-            chk.call(lambda: k.knots)
+            kn_s = chk.call(lambda: k.knots)               # checked after EACH map (a later map may repair a stale answer)
+            chk.identities("scaled-distinct-knots", [("nknots", len(kn_s), nk)] + [("knots[%d]" % i, g, w * s) for i, (g, w) in enumerate(zip(kn_s, ks))] +
+                           [("limits[%d]" % i, g, w * s) for i, (g, w) in enumerate(zip(chk.call(lambda: k.limits), (ks[0], ks[-1])))])
             chk.call(k.shift, a)
             want = [u * s + a for u in U]
             got = list(k)
